@@ -544,6 +544,9 @@ where
                                     }) => match &**key {
                                         Expr::Ident(ident) => keys.contains(&ident.sym),
                                         Expr::Lit(Lit::Str(str)) => keys.contains(&str.value),
+                                        Expr::Lit(Lit::Num(num)) => {
+                                            keys.contains(&Atom::from(num.value.to_string()))
+                                        }
                                         _ => false,
                                     },
                                     RefinedTsTypeElement::CallSignature(..) => false,
@@ -573,6 +576,9 @@ where
                                     }) => match &**key {
                                         Expr::Ident(ident) => !keys.contains(&ident.sym),
                                         Expr::Lit(Lit::Str(str)) => !keys.contains(&str.value),
+                                        Expr::Lit(Lit::Num(num)) => {
+                                            !keys.contains(&Atom::from(num.value.to_string()))
+                                        }
                                         _ => true,
                                     },
                                     RefinedTsTypeElement::CallSignature(..) => true,
